@@ -1,7 +1,6 @@
-"""Tie (T) for C04: a fail-closed translator  Python `ast` -> Gallina  for the helpers of the divide-and-conquer
-non-dominated sort in deap/tools/emo.py and the sort itself (isDominated, median, splitA, splitB, sweepA, sortNDHelperB,
-sortNDHelperA, sortLogNondominated; sweepB -- a `while` over an iterator -- is outside the grammar and stays tied by the
-correspondence).
+"""Tie (T) for C04: a fail-closed translator  Python `ast` -> Gallina  for the divide-and-conquer non-dominated sort of
+deap/tools/emo.py and all its helpers: isDominated, median, splitA, splitB, sweepA, sweepB, sortNDHelperB, sortNDHelperA,
+sortLogNondominated.
 
 The output coq/Gen/C04_gen.v is regenerated from the CURRENT source text on every run and never committed.  The regenerated
 definitions use the vocabulary of coq/Model/C04_GenRt.v and the Python primitives of coq/Model/C04_LogSort.v; they are
@@ -21,7 +20,9 @@ Typed subset (types are inferred from the signature table below):
 Statements: assignment (names, tuple of names, d[k] = v on the rank dict), augmented assignment, `x.append(e)`,
 `x.insert(i, e)`, `del x[i]`, `if/elif/else`, `for` over a list / slice / zip / enumerate (state = the variables the body
 assigns; `break`, `continue`, `return` inside), `return`, `pass`, calls of the other translated functions (a procedure that
-updates the rank dict in place returns the new dict; recursion is given explicit fuel like in the model).
+updates the rank dict in place returns the new dict; recursion is given explicit fuel like in the model), `while c:` with a tabulated bound on the iterations (result: option, None =
+out of fuel; `while x and c` with `x = next(it, False)`: x is a tuple in the body, true iff not empty), `it = iter(l)`,
+`x = next(it, False)`.
 Expressions: names, integer constants, True/False, + - * // % unary -, `/ 2.0` (-> H), comparisons (chains), and/or/not,
 conditional expressions, subscripts and the slices [:e] [s:], len abs min max (two numbers; a list with key=), sorted(key=),
 map, frozenset (only under len), zip, enumerate, bisect.bisect_right, itemgetter, math.isinf (constant False: the model's
@@ -50,6 +51,7 @@ def refuse(node, why):
 
 # ---- types ------------------------------------------------------------------------------------------------
 Z, H, B, T, F, K, U, I, G, R = "Z", "H", "B", "T", "F", "K", "U", "I", "G", "R"
+IT, OT, NT = "IT", "OT", "NT"     # iterator over tuples (the rest of the list); next(it, False); the same, known to be a tuple
 
 
 def L(t=None):
@@ -121,6 +123,10 @@ def coqtype(t, node="type"):
         return "(kmap (list ind))"
     if t == R:
         return "log_result"
+    if t == IT:
+        return "(list wvals)"
+    if t == OT:
+        return "(option wvals)"
     if is_list(t):
         if elt(t) is None:
             refuse(node, "list of unknown element type")
@@ -146,11 +152,12 @@ def default(t, node):
 
 # ---- signature table (the trusted part next to the grammar) ---------------------------------------------
 # name, parameters, result type, in-out parameters (a procedure returns their final values), fuelled, hand model
-def _sig(name, params, ret, inout, fuel, model, defaults=None, callfuel=None):
+def _sig(name, params, ret, inout, fuel, model, defaults=None, callfuel=None, whilefuel=None, hints=None):
     """fuel: True = the function is recursive and gets an explicit fuel parameter (result: option); "opt" = not recursive, but
     calls a fuelled procedure (result: option, no fuel parameter); callfuel: the fuel a NON-fuelled caller passes, as a Coq
     text over {0}, {1}, .. = the call's arguments (the model's choice, proved sufficient by C04_log_ranks_total)"""
-    return dict(name=name, params=params, ret=ret, inout=inout, fuel=fuel, model=model, defaults=defaults or {}, callfuel=callfuel)
+    return dict(name=name, params=params, ret=ret, inout=inout, fuel=fuel, model=model, defaults=defaults or {}, callfuel=callfuel,
+                whilefuel=whilefuel, hints=hints or {})
 
 
 FUNCS = [
@@ -160,7 +167,13 @@ FUNCS = [
     _sig("splitB", [("best", L(T)), ("worst", L(T)), ("obj", Z)], P(L(T), L(T), L(T), L(T)), [], False,
          "splitB v_best v_worst v_obj"),
     _sig("sweepA", [("fitnesses", L(T)), ("front", F)], U, ["front"], False, "sweepA v_fitnesses v_front"),
-    _sig("sweepB", [("best", L(T)), ("worst", L(T)), ("front", F)], U, ["front"], False, "sweepB v_best v_worst v_front"),
+    # whilefuel: the bound on the iterations of each `while` of the function (None = out of fuel: the equivalence lemma
+    # then fails, so a wrong bound is detected, not trusted)
+    _sig("sweepB", [("best", L(T)), ("worst", L(T)), ("front", F)], U, ["front"], "opt", "Some (sweepB v_best v_worst v_front)",
+         whilefuel="(S (length v_best))",
+         # element types of locals that start as [] and are read before anything is stored in them (only typing: a wrong
+         # hint makes the regenerated definition ill-typed, which is a refusal)
+         hints={"stairs": Z, "fstairs": T}),
     _sig("sortNDHelperB", [("best", L(T)), ("worst", L(T)), ("obj", Z), ("front", F)], U, ["front"], True,
          "helperB fuel v_best v_worst v_obj v_front"),
     _sig("sortNDHelperA", [("fitnesses", L(T)), ("obj", Z), ("front", F)], U, ["front"], True,
@@ -219,6 +232,9 @@ def assigned(stmts):
         if isinstance(s, ast.Assign):
             for t in s.targets:
                 target(t)
+            if isinstance(s.value, ast.Call) and isinstance(s.value.func, ast.Name) and s.value.func.id == "next" and s.value.args \
+                    and isinstance(s.value.args[0], ast.Name):
+                add(s.value.args[0].id)
         elif isinstance(s, ast.AugAssign):
             target(s.target)
         elif isinstance(s, ast.Delete):
@@ -259,6 +275,8 @@ def escapes(stmts, loop_level=True):
         if isinstance(s, ast.Expr) and isinstance(s.value, ast.Call) and isinstance(s.value.func, ast.Name) \
                 and s.value.func.id in SIG and SIG[s.value.func.id]["fuel"]:
             return True
+        if isinstance(s, ast.While):
+            return True
         if isinstance(s, ast.If) and escapes(s.body + s.orelse, loop_level):
             return True
         if isinstance(s, (ast.For, ast.While)) and escapes(s.body + s.orelse, False):
@@ -275,6 +293,33 @@ def has(stmts, kinds, into_loops=False):
         if into_loops and isinstance(s, (ast.For, ast.While)) and has(s.body + s.orelse, kinds, True):
             return True
     return False
+
+
+def always_exits(stmts):
+    if not stmts:
+        return False
+    last = stmts[-1]
+    if isinstance(last, (ast.Break, ast.Return)):
+        return True
+    return isinstance(last, ast.If) and bool(last.orelse) and always_exits(list(last.body)) and always_exits(list(last.orelse))
+
+
+def mut_safe(stmts, name):
+    """every update of the list `name` in these statements (the body of a loop over it) is followed by leaving the loop"""
+    for i, st in enumerate(stmts):
+        if name not in assigned([st]):
+            continue
+        rest = list(stmts[i + 1:])
+        if isinstance(st, ast.If):
+            if always_exits(rest):
+                continue
+            if not (mut_safe(list(st.body), name) and mut_safe(list(st.orelse), name)):
+                return False
+        elif isinstance(st, (ast.For, ast.While)):
+            return False
+        elif not always_exits(rest):
+            return False
+    return True
 
 
 # ---- one function ----------------------------------------------------------------------------------------
@@ -295,7 +340,12 @@ class FnTr(object):
     def var(self, node, name):
         if name not in self.env:
             refuse(node, "name %s is not (certainly) bound here" % name)
-        return cn(name), self.env[name]
+        return cn(name), (T if self.env[name] == NT else self.env[name])
+
+    def vtup(self, names, env=None):
+        """the tuple of the current values of the variables (a narrowed optional is wrapped again)"""
+        env = self.env if env is None else env
+        return tup(["(Some %s)" % cn(nm) if env.get(nm) == NT else cn(nm) for nm in names])
 
     def num(self, node, want=None):
         """a number: (text, Z | H)"""
@@ -338,6 +388,14 @@ class FnTr(object):
             refuse(n, "unary operator")
         if isinstance(n, ast.BinOp):
             return self.binop(n)
+        if isinstance(n, ast.BoolOp) and isinstance(n.op, ast.And) and isinstance(n.values[0], ast.Name) \
+                and self.env.get(n.values[0].id) == OT:
+            # `x and c` with x = next(it, False): x is a tuple there; a tuple is true iff it is not empty
+            nm = n.values[0].id
+            self.env[nm] = NT
+            inner = " && ".join(self.expr_of(v, B) for v in n.values[1:])
+            self.env[nm] = OT
+            return "(match %s with Some %s => negb (zlen %s =? 0) && (%s) | None => false end)" % (cn(nm), cn(nm), cn(nm), inner), B
         if isinstance(n, ast.BoolOp):
             op = " && " if isinstance(n.op, ast.And) else " || "
             return "(%s)" % op.join(self.expr_of(v, B) for v in n.values), B
@@ -541,6 +599,10 @@ class FnTr(object):
             refuse(n, "call of the local %s" % name)
         if name == "itemgetter":
             return self.keyfun(n), K
+        if name == "iter" and len(n.args) == 1 and not kw:
+            x, tx = self.expr(n.args[0])
+            unify(tx, L(T), n)
+            return x, IT
         if name == "defaultdict":
             if len(n.args) == 1 and not kw and isinstance(n.args[0], ast.Name) and n.args[0].id == "list" and "list" not in self.env:
                 return "(@nil (wvals * list ind))", G
@@ -607,12 +669,17 @@ class FnTr(object):
 
     # -- statements ----------------------------------------------------------------------------------------
     def bind(self, node, name, ty):
+        if is_list(ty) and elt(ty) is None and name in self.sig["hints"]:
+            ty[1][0] = self.sig["hints"][name]
         if name in BUILTINS or name in SIG or name in EXPECTED:
             refuse(node, "%s, a name of fixed meaning, is rebound" % name)
         if name in self.env and self.env[name] is not None:
             old = self.env[name]
             if old == H and ty == Z:
                 return H
+            if old in (OT, NT) and ty == OT:
+                self.env[name] = OT
+                return OT
             if (is_list(old) or is_prod(old)) and (is_list(ty) or is_prod(ty)):
                 ty = unify(old, ty, node)
             elif old != ty:
@@ -676,6 +743,8 @@ class FnTr(object):
             return self.stmt_if(s, rest, k, ctx)
         if isinstance(s, ast.For):
             return self.stmt_for(s, rest, k, ctx)
+        if isinstance(s, ast.While):
+            return self.stmt_while(s, rest, k, ctx)
         refuse(s, "statement outside the grammar")
 
     def inout_tuple(self, node):
@@ -692,6 +761,8 @@ class FnTr(object):
     def shared(self, v, ty):
         """may the (list / dict) value of expression v be shared with another variable or container?  Fresh: displays,
         comprehensions, slices, concatenations, and the results of the builtins that build a new object"""
+        if ty == IT:
+            return True
         if not (is_list(ty) or ty in (F, G)):
             return False
         if isinstance(v, (ast.List, ast.ListComp, ast.BinOp)):
@@ -708,8 +779,20 @@ class FnTr(object):
         if len(s.targets) != 1:
             refuse(s, "chained assignment")
         tg = s.targets[0]
+        v = s.value
+        if isinstance(tg, ast.Name) and isinstance(v, ast.Call) and isinstance(v.func, ast.Name) and v.func.id == "next" \
+                and "next" not in self.env:
+            # x = next(it, False): the head of the rest (None = exhausted), the iterator advances
+            if len(v.args) != 2 or v.keywords or not isinstance(v.args[0], ast.Name) or self.env.get(v.args[0].id) != IT \
+                    or not (isinstance(v.args[1], ast.Constant) and v.args[1].value is False) or tg.id == v.args[0].id:
+                refuse(s, "next() other than  x = next(it, False)  on an iterator variable")
+            it = cn(v.args[0].id)
+            self.bind(s, tg.id, OT)
+            return "let %s := hd_error %s in\nlet %s := tl %s in\n%s" % (cn(tg.id), it, it, it, nxt())
         if isinstance(tg, ast.Name):
             t, ty = self.expr(s.value)
+            if ty in (IT, OT) and not (isinstance(v, ast.Call) and isinstance(v.func, ast.Name) and v.func.id == "iter"):
+                refuse(s, "copy of an iterator / of an optional value")
             if self.shared(s.value, ty):
                 self.aliased.add(tg.id)
                 for x in ast.walk(s.value):
@@ -831,7 +914,9 @@ class FnTr(object):
                     refuse(s, "call of the recursive procedure %s from a function without fuel" % sg["name"])
                 if self.loop_depth:
                     refuse(s, "call of the recursive procedure %s inside a loop" % sg["name"])
-                if self.sig["fuel"] == "opt":
+                if sg["fuel"] == "opt":
+                    fuel = None
+                elif self.sig["fuel"] == "opt":
                     if not sg["callfuel"]:
                         refuse(s, "no fuel is tabulated for a call of %s from a non-recursive function" % sg["name"])
                     fuel = sg["callfuel"].format(*[self.expr(a)[0] for a in c.args])
@@ -859,22 +944,25 @@ class FnTr(object):
         env_b = self.env
         self.aliased = self.aliased | al_a
         joined = []
+        jnames = []
         env = dict(env0)
         for nm in names:
             if nm in env_a and nm in env_b:
                 ta, tb = env_a[nm], env_b[nm]
                 if zh(ta, tb):
                     refuse(s, "%s is an integer on one branch and a half-integer on the other" % nm)
+                if OT in (ta, tb) and NT in (ta, tb):
+                    ta = tb = OT
                 env[nm] = unify(ta, tb, s)
                 joined.append(cn(nm))
+                jnames.append(nm)
             else:
                 env.pop(nm, None)      # bound on one path only: not usable afterwards
         self.env = env
-        j = tup(joined)
         if not joined:
             return self.block(rest, k, ctx)
-        return "let %s := (if %s then\n%s\nelse\n%s) in\n%s" % (pat(joined), c, a.replace(JOIN, j), b.replace(JOIN, j),
-                                                               self.block(rest, k, ctx))
+        return "let %s := (if %s then\n%s\nelse\n%s) in\n%s" % (pat(joined), c, a.replace(JOIN, self.vtup(jnames, env_a)),
+                                                               b.replace(JOIN, self.vtup(jnames, env_b)), self.block(rest, k, ctx))
 
     def iterable(self, n):
         """(text of a Coq list, element type)"""
@@ -922,26 +1010,35 @@ class FnTr(object):
         for nm in carried:
             self.mutable_or_local(s, nm)
         for nm in self.live_names(s.iter):
-            if nm in body_assigned:
-                refuse(s, "the loop iterates over %s, which its body updates" % nm)
+            if nm in body_assigned and not mut_safe(list(s.body), nm):
+                refuse(s, "the loop iterates over %s, which its body updates without leaving the loop at once" % nm)
         env0 = dict(self.env)
         for nm, ty in zip(tnames, ttypes):
             self.env[nm] = ty
         state = [cn(nm) for nm in carried]
         has_ret = has(list(s.body), ast.Return, into_loops=True)
         has_brk = has(list(s.body), (ast.Break, ast.Continue))
-        self.loop_depth += 1
+        has_opt = has(list(s.body), ast.While, into_loops=True)
+        if has_opt and (has_ret or has_brk or self.sig["fuel"] != "opt"):
+            refuse(s, "a loop containing a while loop and return / break / continue")
+        init = self.vtup(carried)
+        if not has_opt:
+            self.loop_depth += 1
         if has_ret or has_brk:
-            body_ctx = Ctx(ret=lambda t: "Ret %s" % t, brk=lambda: "Brk %s" % tup(state), nxt=lambda: "Nxt %s" % tup(state))
-            body = self.block(list(s.body), lambda: "Nxt %s" % tup(state), body_ctx)
+            body_ctx = Ctx(ret=lambda t: "Ret %s" % t, brk=lambda: "Brk %s" % self.vtup(carried), nxt=lambda: "Nxt %s" % self.vtup(carried))
+            body = self.block(list(s.body), lambda: "Nxt %s" % self.vtup(carried), body_ctx)
+        elif has_opt:
+            body_ctx = Ctx(ret=None)
+            body = self.block(list(s.body), lambda: "Some %s" % self.vtup(carried), body_ctx)
         else:
             body_ctx = Ctx(ret=None)
-            body = self.block(list(s.body), lambda: tup(state), body_ctx)
-        self.loop_depth -= 1
+            body = self.block(list(s.body), lambda: self.vtup(carried), body_ctx)
+        if not has_opt:
+            self.loop_depth -= 1
         # after the loop: the carried variables (types as refined in the body); loop variables and body locals are gone
         env = dict(env0)
         for nm in carried:
-            env[nm] = self.env[nm]
+            env[nm] = OT if self.env[nm] == NT else self.env[nm]
         for nm in tnames:
             env.pop(nm, None)
         for nm in body_assigned:
@@ -950,13 +1047,55 @@ class FnTr(object):
         self.env = env
         if has_ret:
             return "match for_loop %s (fun %s %s =>\n%s) %s with\n| inl r_ => %s\n| inr %s =>\n%s\nend" % (
-                it, pat([cn(x) for x in tnames]), pat(state), body, tup(state), ctx.ret("r_"), pat(state).lstrip("'"),
+                it, pat([cn(x) for x in tnames]), pat(state), body, init, ctx.ret("r_"), pat(state).lstrip("'"),
                 self.block(rest, k, ctx))
         if has_brk:
             return "let %s := for_brk %s (fun %s %s =>\n%s) %s in\n%s" % (
-                pat(state), it, pat([cn(x) for x in tnames]), pat(state), body, tup(state), self.block(rest, k, ctx))
+                pat(state), it, pat([cn(x) for x in tnames]), pat(state), body, init, self.block(rest, k, ctx))
+        if has_opt:
+            return "obind (fold_opt (fun %s %s =>\n%s) %s %s) (fun %s =>\n%s)" % (
+                pat(state), pat([cn(x) for x in tnames]), body, it, init, pat(state), self.block(rest, k, ctx))
         return "let %s := fold_left (fun %s %s =>\n%s) %s %s in\n%s" % (
-            pat(state), pat(state), pat([cn(x) for x in tnames]), body, it, tup(state), self.block(rest, k, ctx))
+            pat(state), pat(state), pat([cn(x) for x in tnames]), body, it, init, self.block(rest, k, ctx))
+
+    def stmt_while(self, s, rest, k, ctx):
+        """while c: body  ->  while_loop FUEL (fun state => c) (fun state => body) state : option state  (None = out of fuel).
+        `while x and c` with x = next(it, False): x is a tuple inside the body"""
+        if s.orelse:
+            refuse(s, "while ... else")
+        if self.sig["fuel"] != "opt" or not self.sig.get("whilefuel"):
+            refuse(s, "while loop in a function without a tabulated iteration bound")
+        if escapes(list(s.body)):
+            refuse(s, "return / break / continue / while / call of a recursive procedure inside a while loop")
+        body_assigned = assigned(list(s.body))
+        carried = [nm for nm in body_assigned if nm in self.env]
+        for nm in carried:
+            self.mutable_or_local(s, nm)
+        state = [cn(nm) for nm in carried]
+        init = self.vtup(carried)
+        env0 = dict(self.env)
+        cond = self.expr_of(s.test, B)
+        narrow = None
+        if isinstance(s.test, ast.BoolOp) and isinstance(s.test.op, ast.And) and isinstance(s.test.values[0], ast.Name) \
+                and self.env.get(s.test.values[0].id) == OT:
+            narrow = s.test.values[0].id
+            if narrow not in carried:
+                refuse(s, "the optional value tested by the while loop is not updated in its body")
+            self.env[narrow] = NT
+        self.loop_depth += 1
+        body = self.block(list(s.body), lambda: self.vtup(carried), Ctx(ret=None))
+        self.loop_depth -= 1
+        if narrow:
+            body = "match %s with\n| Some %s =>\n%s\n| None => %s\nend" % (cn(narrow), cn(narrow), body, tup(state))
+        env = dict(env0)
+        for nm in carried:
+            env[nm] = OT if self.env[nm] == NT else self.env[nm]
+        for nm in body_assigned:
+            if nm not in carried:
+                env.pop(nm, None)
+        self.env = env
+        return "obind (while_loop %s (fun %s => %s) (fun %s =>\n%s) %s) (fun %s =>\n%s)" % (
+            self.sig["whilefuel"], pat(state), cond, pat(state), body, init, pat(state), self.block(rest, k, ctx))
 
     def live_names(self, n):
         """names whose (mutable) value the iteration reads while it runs: not those under a slice or a copying builtin"""
@@ -980,7 +1119,7 @@ class FnTr(object):
 FORBIDDEN = (ast.Global, ast.Nonlocal, ast.Try, ast.With, ast.Yield, ast.YieldFrom, ast.Await, ast.ClassDef, ast.Import,
              ast.ImportFrom, ast.NamedExpr, ast.FunctionDef, ast.AsyncFunctionDef, ast.AsyncFor, ast.AsyncWith,
              ast.Assert, ast.SetComp, ast.DictComp, ast.GeneratorExp, ast.JoinedStr, ast.Dict, ast.Set,
-             ast.Lambda, ast.While, ast.Raise, ast.Starred)
+             ast.Lambda, ast.Raise, ast.Starred)
 
 
 def check_module(tree):
